@@ -215,6 +215,123 @@ def functor_cmp_obligations(path, tags):
     return out
 
 
+def variant_index(src_rel, enum, want):
+    import os
+    from ..common import REPO
+    with open(os.path.join(REPO, src_rel)) as f:
+        txt = f.read()
+    m = re.search(r"enum %s \{(.*?)\n\}" % enum, txt, re.S)
+    if not m:
+        raise core.Unsupported("enum %s not found" % enum)
+    names = re.findall(r"^\s*(\w+)\s*(?:\(|,|\{)", m.group(1), re.M)
+    return {n: i for i, n in enumerate(names)}
+
+
+def fold_obligations(mir):
+    """how the pair stream becomes an order: ParallelHeapIter::parallel_cmp maps v1.cmp(&v2) to
+    Less / Greater (Equal: go on), every call of it in next() compares (left thing, right thing),
+    MachineState::compare_term_test builds the iterator from (h1, h2) in that order and maps
+    Less -> Less, Greater -> Greater, Vars(a, b) with a != b -> a.cmp(&b), exhaustion -> Equal.
+    -> list of {obligation, ok, why}"""
+    out = []
+    tp = variant_index("src/heap_iter.rs", "TermPair", None)
+    # --- parallel_cmp
+    n = [x for x in mir.index if x.startswith("heap_iter::") and x.endswith("::parallel_cmp")]
+    if len(n) != 1:
+        raise core.Unsupported("parallel_cmp: %s" % n)
+    b = mir.body(n[0])
+    seen = {}
+    for p in core.Executor(b, max_depth=100, max_paths=100).run("bb0"):
+        c = [c for c in p.conds if c[0][0] == "disc" and c[0][1][0] == "app" and c[0][1][1].endswith("::cmp")]
+        if not c or c[0][1] != "==":
+            continue
+        call = c[0][0][1]
+        order_ok = call[2][0] in (("ref", "_2"), ("s", "_2")) and call[2][1] in (("ref", "_3"), ("s", "_3"))
+        d = c[0][2]
+        r = p.env.get("_0")
+        got = "None" if (r and r[0] == "agg" and r[1].endswith("::None")) else (
+            r[2][0][1].split("::")[-1] if r and r[0] == "agg" and r[2] and r[2][0][0] == "agg" else "?")
+        sides = True
+        if got in ("Less", "Greater"):
+            sides = r[2][0][2] == (("s", "_4"), ("s", "_5"))
+        seen[d] = (got, order_ok, sides)
+    want = {255: "Less", 0: "None", 1: "Greater"}
+    for d, w in want.items():
+        g = seen.get(d)
+        out.append({"obligation": "parallel_cmp: v1.cmp(&v2) == %s yields %s" % (
+            {255: "Less", 0: "Equal", 1: "Greater"}[d], w if w != "None" else "no verdict (go on)"),
+            "ok": bool(g) and g[0] == w and g[1] and g[2], "why": str(g)})
+    # --- every parallel_cmp call in next(): left operand from the left cell, right from the right
+    names = [x for x in mir.index if re.match(FN, x)]
+    body = None
+    for x in names:
+        bb = mir.body(x)
+        if any("parallel_cmp" in l for ls in bb.blocks.values() for l in ls):
+            body = bb
+    heads = util.back_edge_targets(body)
+    bad, tot = [], 0
+    for p in core.Executor(body, stop_blocks=tuple(heads), max_depth=500, max_paths=20000).run(heads[0]):
+        for e in p.events:
+            if e[0] == "call" and e[1].endswith("::parallel_cmp"):
+                tot += 1
+                l, r, h1, h2 = e[2][1], e[2][2], e[2][3], e[2][4]
+                okc = contains_side(l) <= {0} and contains_side(r) <= {1} and contains_side(h1) == {0} and \
+                    contains_side(h2) == {1} and (contains_side(l) or contains_side(r))
+                if not okc:
+                    bad.append("%s vs %s" % (util.term_str(l)[:60], util.term_str(r)[:60]))
+    out.append({"obligation": "next(): every parallel_cmp compares (left, right) and reports (v1, v2) (%d calls)" % tot,
+                "ok": tot > 0 and not bad, "why": "; ".join(sorted(set(bad))[:3])})
+    # --- compare_term_test
+    n = [x for x in mir.index if x.endswith("::compare_term_test")]
+    if len(n) != 1:
+        raise core.Unsupported("compare_term_test: %s" % n)
+    b = mir.body(n[0])
+    heads = util.back_edge_targets(b)
+    if len(heads) != 1:
+        raise core.Unsupported("compare_term_test: loops %s" % heads)
+    pre = core.Executor(b, stop_blocks=tuple(heads), max_depth=100, max_paths=50).run("bb0")
+    ok_from = False
+    for p in pre:
+        for e in p.events:
+            if e[0] == "call" and re.search(r"ParallelHeapIter.*::from$|::from$", e[1]) and len(e[2]) >= 3:
+                a1, a2 = e[2][-2], e[2][-1]
+                d1 = a1[0] == "app" and a1[1].endswith("::store") and ("s", "_2") in a1[2]
+                d2 = a2[0] == "app" and a2[1].endswith("::store") and ("s", "_3") in a2[2]
+                ok_from = d1 and d2
+    out.append({"obligation": "compare_term_test walks ParallelHeapIter::from(self, store(h1), store(h2))",
+                "ok": ok_from, "why": ""})
+    got = {}
+    for p in core.Executor(b, stop_blocks=tuple(heads), max_depth=200, max_paths=200).run(heads[0]):
+        nxt = [c for c in p.conds if c[0][0] == "disc" and c[0][1][0] == "app" and c[0][1][1].endswith("::next")]
+        var = [c for c in p.conds if c[0][0] == "disc" and c[0][1][0] == "proj" and c[1] == "=="]
+        r = p.env.get("_0")
+        res = None
+        if p.end == "return" and r is not None and r[0] == "agg":
+            if r[1].endswith("::None"):
+                res = "None"
+            elif r[2] and r[2][0][0] == "agg":
+                res = r[2][0][1].split("::")[-1]
+            elif r[2] and r[2][0][0] == "app" and r[2][0][1].endswith("::cmp"):
+                a, bb2 = r[2][0][2][0], r[2][0][2][1]
+
+                def fld(x):
+                    if x[0] == "ref":
+                        x = p.env.get(x[1]) or x
+                    root, projs = util.field_path(x)
+                    return projs[-1] if projs else None
+                res = "cmp(%s,%s)" % (fld(a), fld(bb2))
+        if nxt and nxt[0][1] == "==" and nxt[0][2] == 0:
+            got["exhausted"] = res
+        elif var:
+            key = {v: k for k, v in tp.items()}.get(var[0][2], str(var[0][2]))
+            if p.end == "return":
+                got[key] = res
+    for key, w in (("exhausted", "Equal"), ("Less", "Less"), ("Greater", "Greater"), ("Vars", "cmp(.0,.1)")):
+        out.append({"obligation": "compare_term_test: %s => %s" % (key, w), "ok": got.get(key) == w,
+                    "why": "found %s" % got.get(key)})
+    return out
+
+
 def run(thorough=False):
     try:
         mir, secs, cached = util.get()
@@ -407,6 +524,10 @@ def run(thorough=False):
             seen.add(k)
             uniq.append(st)
     structural = uniq
+    try:
+        structural += fold_obligations(mir)
+    except core.Unsupported as e:
+        structural.append({"obligation": "pair stream folding", "ok": None, "why": str(e)})
     expected_arms = {("Lis", "PStrLoc"), ("Lis", "Lis"), ("Lis", "Str"), ("PStrLoc", "PStrLoc"),
                      ("PStrLoc", "Lis"), ("PStrLoc", "Str"), ("Str", "PStrLoc")}
     missing = expected_arms - arms
